@@ -19,6 +19,9 @@ import numpy as np
 
 from mc.core import Outcome
 from mc.oracles import grpI_exact as X
+from mc.oracles import grpI_variants as VR
+
+_VARIANTS = VR.VARIANTS + [("id", "C", "float", False)]
 
 PROPERTY = "C44"
 LEVEL = "exploration"
@@ -45,10 +48,16 @@ ASSUMPTIONS = [
     "alphabet; their failures are matched by known_finding() on the exact contact class of the input",
     "a 3-d piece is the polygon described by its vertex order: its area is the Newell vector area",
     "input polygons in 3-d are convex (rectangles, triangles); polyhedra are convex",
+    "each call uses one of five argument representations by a fixed rotation: plain, translated by 1000 "
+    "(read-only), scaled by 2^-10 (Fortran order, read-only), scaled by 2^10, int64 where integral (Fortran "
+    "order, read-only); the maps are exact and the returned coordinates are mapped back before judging; "
+    "all array arguments (polygon, points, edges, polygon list, polyhedron faces) must be bitwise "
+    "unchanged after the call",
 ]
 BOUNDS = {
     "quick": "2-d: polygons {tilted square, L-shape} x (240 oriented single segments + 14 400 ordered "
-    "pairs); 3-d: cube [0,2]^3, tetrahedron conv{0, 2e1, 2e2, 2e3} and both shifted by (1/2,1/2,1/2) x "
+    "pairs); 3-d: cube [0,2]^3, tetrahedron conv{0, 2e1, 2e2, 2e3}, both shifted by (1/2,1/2,1/2), and the shifted cube "
+    "with every face split into two coplanar triangles / with one face split into two rectangles (hanging nodes) x "
     "{1500 axis-aligned rectangles with corners in {-1..3}, 600 rectangles in the 6 diagonal planes x=y, y=z, "
     "x=z, x+y=2, y+z=2, x+z=2}; every 5th polygon and every polygon lying wholly inside also as second member of a list of two",
     "thorough": "2-d: 7 polygons (adds triangle, unit square, U-shape, concave quadrilateral, clockwise "
@@ -92,14 +101,40 @@ def _tet(o):
     return [[a, b, c], [a, b, d], [a, c, d], [b, c, d]]
 
 
+def _split_tri(faces):
+    """Every quadrilateral face split into two coplanar triangles (alternating diagonal)."""
+    out = []
+    for i, f in enumerate(faces):
+        if len(f) == 4 and i % 2 == 0:
+            out += [[f[0], f[1], f[2]], [f[0], f[2], f[3]]]
+        elif len(f) == 4:
+            out += [[f[0], f[1], f[3]], [f[1], f[2], f[3]]]
+        else:
+            out.append(f)
+    return out
+
+
+def _hanging(l, h):
+    """Cube whose face x=l is split into two coplanar rectangles along y=(l+h)/2: the end
+    points of the split line are hanging nodes on the edges of the bottom and top faces."""
+    m = (l + h) / 2
+    faces = _cube(l, h)
+    return [[(l, l, l), (l, m, l), (l, m, h), (l, l, h)], [(l, m, l), (l, h, l), (l, h, h), (l, m, h)]] + faces[1:]
+
+
 # "cube"/"tetrahedron" have their faces on lattice planes (rich in degenerate contacts);
-# the "-half" variants are shifted by 1/2 so that no lattice polygon vertex lies in a face plane.
+# the "-half" variants are shifted by 1/2 so that no lattice polygon vertex lies in a face plane;
+# "-tri"/"-hang" describe the SAME solid with faces split into coplanar pieces.
 POLYHEDRA = {
     "cube": _cube(0, 2),
     "cube-half": _cube(_H, _H + 2),
     "tetrahedron": _tet(0),
     "tetrahedron-half": _tet(_H),
+    "cube-half-tri": _split_tri(_cube(_H, _H + 2)),
+    "cube-half-hang": _hanging(_H, _H + 2),
 }
+# the solid whose (true) edges define the contact classes
+SOLID = {"cube-half-tri": "cube-half", "cube-half-hang": "cube-half"}
 
 
 @functools.lru_cache(maxsize=None)
@@ -261,18 +296,27 @@ def _part_lines(case, out, V):
             c2, nt2 = _seg_class(name, *s2)
             calls.append(([s1, s2 if (j + k) % 2 else s2[::-1]], "pair", c1 + "|" + c2,
                           ("l", name, k, j) if (nt1 or nt2) else None))
-        for seglist, how, cls, key in calls:
+        for ic, (seglist, how, cls, key) in enumerate(calls):
             pts = np.array([q for s in seglist for q in s], dtype=float).T.copy()
             tags = [100 + i for i in range(len(seglist))]
             edges = np.array([[2 * i for i in range(len(seglist))], [2 * i + 1 for i in range(len(seglist))], tags], dtype=int)
+            # rotating representation / similarity variant (every 5th call is plain)
+            v = _VARIANTS[(ic + k) % len(_VARIANTS)]
+            Pv, ptsv, edgesv = VR.make(P, v), VR.make(pts, v), VR.represent(edges, v[1], "int", v[3])
+            pur = VR.Purity(poly_pts=Pv, pts=ptsv, edges=edgesv)
             try:
-                res = constrain_geometry.lines_by_polygon(P.copy(), pts.copy(), edges.copy())
+                res = constrain_geometry.lines_by_polygon(Pv, ptsv, edgesv)
+                if v[0] != "id" and isinstance(res, tuple) and len(res) == 3:
+                    res = (VR.inv(res[0], v[0]),) + tuple(res[1:])
                 err, detail = _judge_lines(name, seglist, tags, res)
             except Exception as e:
                 err, detail, res = "raised on valid input", repr(e), None
+            if not err and pur.changed():
+                err, detail = "input array modified: " + ",".join(pur.changed()), None
+            out.extra["variant " + VR.name(v)] = out.extra.get("variant " + VR.name(v), 0) + 1
             if err:
                 V.add("lines_by_polygon: " + err, cat=cls, detail=detail, polygon=poly, pts=pts, edges=edges,
-                      returned=_returned(res))
+                      variant=VR.name(v), returned=_returned(res))
                 out.ev(f"VIOLATION/lines/{name}/{cls}", key)
             else:
                 out.ev(f"lines/{name}/{how}/{cls}" if how == "single" else f"lines/{name}/pair", key)
@@ -290,9 +334,25 @@ def _halfspaces(ph):
 
 
 @functools.lru_cache(maxsize=None)
+def _split_lines(ph):
+    """Edges of the face list that are not edges of the solid (split lines of coplanar faces)."""
+    if ph not in SOLID:
+        return []
+    true = set(_ph_edges(ph))
+    lines = set()
+    for f in POLYHEDRA[ph]:
+        k = len(f)
+        for i in range(k):
+            e = tuple(sorted((f[i], f[(i + 1) % k])))
+            if not any(X.point_on_segment(e[0], a, b) and X.point_on_segment(e[1], a, b) for a, b in true):
+                lines.add(e)
+    return sorted(lines)
+
+
+@functools.lru_cache(maxsize=None)
 def _ph_edges(ph):
     edges = set()
-    for f in POLYHEDRA[ph]:
+    for f in POLYHEDRA[SOLID.get(ph, ph)]:
         k = len(f)
         for i in range(k):
             edges.add(tuple(sorted((f[i], f[(i + 1) % k]))))
@@ -304,6 +364,9 @@ def _contact(poly, hs, ph=None):
 
     coplanar-with-face   the polygon lies in the plane of a face
     plane-contains-edge  the plane of the polygon contains an edge of the polyhedron
+    plane-contains-split-line
+                         the plane of the polygon contains the line along which a face of the
+                         polyhedron is split into coplanar pieces
     edges-in-parallel-face-planes
                          two edges of the polygon lie in the planes of two parallel faces
     edge-in-face-plane   an edge of the polygon lies in the plane of a face
@@ -321,6 +384,8 @@ def _contact(poly, hs, ph=None):
         edges = _ph_edges(ph)
         if any(X.dot(nrm, a) == c0 and X.dot(nrm, b) == c0 for a, b in edges):
             return "plane-contains-edge"
+        if any(X.dot(nrm, a) == c0 and X.dot(nrm, b) == c0 for a, b in _split_lines(ph)):
+            return "plane-contains-split-line"
     in_planes = [j for j, (n, c) in enumerate(hs)
                  if any(X.dot(n, poly[i]) == c and X.dot(n, poly[(i + 1) % k]) == c for i in range(k))]
     for j1, j2 in itertools.combinations(in_planes, 2):
@@ -424,16 +489,25 @@ def _part_polys(case, out, V):
         if pi % 5 == 0 or regime == "kept-whole":
             lists.append(("far-first", [far, poly]))
             lists.append(("inner-first", [inner, poly]))
-        for how, plist in lists:
-            arrs = [np.array([[float(x) for x in p] for p in q]).T.copy() for q in plist]
+        for il, (how, plist) in enumerate(lists):
+            v = _VARIANTS[(pi + il) % len(_VARIANTS)]
+            arrs = [VR.make(np.array([[float(x) for x in p] for p in q]).T, v) for q in plist]
+            PHv = [VR.make(f, v) for f in PH]
+            pur = VR.Purity(polygons=arrs, polyhedron=PHv)
+            out.extra["variant " + VR.name(v)] = out.extra.get("variant " + VR.name(v), 0) + 1
             try:
-                res = constrain_geometry.polygons_by_polyhedron(arrs if how != "single" or pi % 2 else arrs[0], [f.copy() for f in PH])
+                res = constrain_geometry.polygons_by_polyhedron(arrs if how != "single" or pi % 2 else arrs[0], PHv)
+                if v[0] != "id" and isinstance(res, tuple) and len(res) == 2:
+                    res = ([VR.inv(q, v[0]) for q in res[0]], res[1])
                 err, detail = _judge_polys(plist, hs, res)
+                if not err and pur.changed():
+                    err, detail = "input array modified: " + ",".join(pur.changed()), None
             except Exception as e:
                 err, detail, res = "raised on valid input", f"{type(e).__name__}: {e}"[:300], None
             if err:
                 V.add("polygons_by_polyhedron: " + err, cat=f"{contact}/{regime}", detail=detail, polyhedron=ph,
                       polygons=[[[float(x) for x in p] for p in q] for q in plist], contact=contact, regime=regime,
+                      variant=VR.name(v),
                       exact_area=0.5 * math.sqrt(float(a2)),
                       returned=_returned(res))
                 out.ev(f"VIOLATION/{cls}", ("p", ph, pi) if nontriv else None)
@@ -461,6 +535,7 @@ def run_case(case) -> Outcome:
 _KNOWN_KEYS = {
     "coplanar-with-face": "C44-polygon-coplanar-with-polyhedron-face",
     "plane-contains-edge": "C44-polygon-plane-contains-polyhedron-edge",
+    "plane-contains-split-line": "C44-polygon-plane-contains-face-split-line",
     "edges-in-parallel-face-planes": "C44-polygon-edges-in-parallel-face-planes",
 }
 
